@@ -134,35 +134,32 @@ Proof.
     destruct IH as [I1 I2]. split; [lia|congruence].
 Qed.
 
-Lemma apply_cols_spec : forall ncol names tab i cur locs m,
-  0 <= i -> i + zlen names <= ncol -> length tab = length names -> Forall (fun p => fst p < 29 /\ 0 <= snd p) tab ->
-  zlen cur = ncol -> length locs = 29%nat -> Forall (fun u => 0 <= u < i) (concat locs) ->
-  match apply_cols E ncol i names tab cur locs m with
-  | Ret nl m' => ms m' = ms m /\ zlen (fst nl) = ncol /\ length (snd nl) = 29%nat /\
-                 Forall (fun u => 0 <= u < i + zlen names) (concat (snd nl)) /\
-                 galloc m' = galloc m + 4 * (zlen (concat (snd nl)) - zlen (concat locs)) /\
-                 zlen (concat locs) <= zlen (concat (snd nl)) /\
+Lemma apply_locs_spec : forall ncol tab i locs m,
+  0 <= i -> i + zlen tab <= ncol -> Forall (fun p => fst p < 29 /\ 0 <= snd p) tab ->
+  length locs = 29%nat -> Forall (fun u => 0 <= u < i) (concat locs) ->
+  match apply_locs E ncol i tab locs m with
+  | Ret locs' m' => ms m' = ms m /\ length locs' = 29%nat /\
+                 Forall (fun u => 0 <= u < i + zlen tab) (concat locs') /\
+                 galloc m' = galloc m + 4 * (zlen (concat locs') - zlen (concat locs)) /\
+                 zlen (concat locs) <= zlen (concat locs') /\
                  (forall b, Forall (fun l => zlen l <= b) locs -> Forall (fun p => snd p < b) tab ->
-                            Forall (fun l => zlen l <= b) (snd nl))
+                            Forall (fun l => zlen l <= b) locs')
   | Bad b => is_throw16 b = true /\ ~ Forall (fun p => (snd p + 1) * 4 <= e_cap E) tab
   end.
 Proof.
-  intros ncol. induction names as [|nm names IH]; intros tab i cur locs m Hi Hn Hl Ht Hc HL F; cbn [apply_cols].
-  - replace (i + zlen (@nil (list Z))) with i by (unfold zlen; simpl; lia).
-    destruct tab; cbn [fst snd]; (split; [reflexivity|split; [assumption|split; [assumption|split; [assumption|split; [lia|split; [lia|]]]]]]); intros; assumption.
-  - destruct tab as [|[typ idx] tab]; [simpl in Hl; discriminate|].
-    unfold zlen in Hn; simpl length in Hn.
-    destruct (set_name_total cur (Z.to_nat i) nm) as [cur' [HS1 HS2]]; [unfold zlen in Hc; lia|].
-    rewrite HS1. apply Forall_cons_iff in Ht. destruct Ht as [[H0 H1] H2]. simpl in H0, H1.
+  intros ncol. induction tab as [|[typ idx] tab IH]; intros i locs m Hi Hn Ht HL F; cbn [apply_locs].
+  - replace (i + zlen (@nil (Z * Z))) with i by (unfold zlen; simpl; lia).
+    split; [reflexivity|split; [assumption|split; [assumption|split; [lia|split; [lia|]]]]]. intros; assumption.
+  - unfold zlen in Hn; simpl length in Hn.
+    apply Forall_cons_iff in Ht. destruct Ht as [[H0 H1] H2]. simpl in H0, H1.
     pose proof (set_locator_spec E ncol locs i typ idx m ltac:(lia) H1 H0 HL F) as HSL.
     destruct (set_locator E ncol locs i typ idx m) as [locs' m1|b]; cbn [bind].
     + destruct HSL as [S1 [S2 [S3 [S4 [S5 S6]]]]].
-      specialize (IH tab (i + 1) cur' locs' m1 ltac:(lia) ltac:(unfold zlen; lia) ltac:(simpl in Hl; lia) H2
-                     ltac:(unfold zlen in *; lia) S2 S3).
-      destruct (apply_cols E ncol (i + 1) names tab cur' locs' m1) as [nl m'|b].
-      * destruct IH as [I1 [I2 [I3 [I4 [I5 [I6 I7]]]]]]. unfold zlen in *. simpl length.
-        split; [congruence|split; [assumption|split; [assumption|split; [|split; [lia|split; [lia|]]]]]].
-        -- replace (i + Z.of_nat (S (length names))) with (i + 1 + Z.of_nat (length names)) by lia. assumption.
+      specialize (IH (i + 1) locs' m1 ltac:(lia) ltac:(unfold zlen; lia) H2 S2 S3).
+      destruct (apply_locs E ncol (i + 1) tab locs' m1) as [nl m'|b].
+      * destruct IH as [I1 [I3 [I4 [I5 [I6 I7]]]]]. unfold zlen in *. simpl length.
+        split; [congruence|split; [assumption|split; [|split; [lia|split; [lia|]]]]].
+        -- replace (i + Z.of_nat (S (length tab))) with (i + 1 + Z.of_nat (length tab)) by lia. assumption.
         -- intros b Hb Hr. apply Forall_cons_iff in Hr. destruct Hr as [Hr1 Hr2]. simpl in Hr1.
            apply I7; [apply S6; assumption|assumption].
       * destruct IH as [IH1 IH2]. split; [assumption|].
@@ -274,28 +271,27 @@ Proof.
   assert (NLF : Forall (fun u => 0 <= u < 0) (concat no_loc)) by (simpl; constructor).
   assert (NLB : Forall (fun l => zlen l <= ncol) no_loc).
   { unfold no_loc. apply Forall_forall. intros l Hl. apply repeat_spec in Hl. subst l. unfold zlen; simpl. lia. }
-  pose proof (apply_cols_spec ncol names tab 0 (map new_name (map (Z.add 1) (zseq ncol))) no_loc m8
-                ltac:(lia) ltac:(lia) ltac:(unfold zlen in *; lia) DT2
-                ltac:(unfold zlen; rewrite !map_length; pose proof (zseq_length ncol); unfold zlen in *; lia)
-                NL29 NLF) as HAC.
-  destruct (apply_cols E ncol 0 names tab (map new_name (map (Z.add 1) (zseq ncol))) no_loc m8) as [nl m9|b]; cbn [bind].
+  destruct (correct_names_total names [] (NoDup_nil _)) as [nms [CN1 [CN2 CN3]]]. rewrite CN1. simpl in CN2.
+  pose proof (apply_locs_spec ncol tab 0 no_loc m8 ltac:(lia) ltac:(unfold zlen in *; lia) DT2 NL29 NLF) as HAC.
+  destruct (apply_locs E ncol 0 tab no_loc m8) as [nl m9|b]; cbn [bind].
   2:{ destruct HAC as [HB1 HB2]. split; [assumption|].
       destruct (fix_rank (e_cfg E)) eqn:RK; [|reflexivity]. exfalso. apply HB2.
       specialize (HRK eq_refl). eapply Forall_impl; [|exact HRK]. simpl. intros p Hp. lia. }
-  destruct HAC as [A1 [A2 [A3 [A4 [A5 [A6 A7]]]]]].
+  destruct HAC as [A1 [A3 [A4 [A5 [A6 A7]]]]].
+  assert (A2 : zlen nms = ncol) by (unfold zlen in *; lia).
   assert (len m9 = len m6) by (unfold len; rewrite A1, S8; reflexivity).
   assert (ZC : zlen (concat no_loc) = 0) by reflexivity.
   assert (GB : fix_rank (e_cfg E) = true -> galloc m9 <= galloc m8 + 116 * ncol).
   { intros HR. specialize (A7 ncol NLB (HRK HR)). pose proof (concat_length_bound _ ncol ltac:(lia) A7) as HB.
     rewrite A3 in HB. lia. }
-  destruct (fix_rank (e_cfg E) && negb (post_ok tab (snd nl))) eqn:CP.
-  - split; [lia|split; [lia|split; [|exact I]]]. intros HR. specialize (GB HR). rewrite W4 in *. lia.
-  - split; [lia|split; [lia|split; [intros HR; specialize (GB HR); rewrite W4 in *; lia|]]].
+  destruct (fix_rank (e_cfg E) && negb (post_ok tab nl)) eqn:CP.
+  - split; [lia|split; [lia|split; [|exact I]]]. intros HR. specialize (GB HR). lia.
+  - split; [lia|split; [lia|split; [intros HR; specialize (GB HR); lia|]]].
     intros HR. rewrite HR in CP. simpl in CP. apply negb_false_iff in CP.
-    destruct (post_ok_wf tab (snd nl) ncol CP ltac:(unfold zlen in *; lia)) as [PW1 PW2].
+    destruct (post_ok_wf tab nl ncol CP ltac:(unfold zlen in *; lia)) as [PW1 PW2].
     unfold wf_db_gt, wf_db. cbn [d_ncol d_nech d_names d_uidcol d_loc d_array].
     split.
-    + split; [lia|split; [lia|split; [assumption|split; [reflexivity|split; [|split; [assumption|split; assumption]]]]]].
+    + split; [lia|split; [lia|split; [assumption|split; [assumption|split; [reflexivity|split; [|split; [assumption|split; assumption]]]]]]].
       destruct ((0 <? ncol) && (0 <? nech * ncol) && (0 <? nech)) eqn:CA.
       * apply load_data_length; lia.
       * destruct (0 <? nech * ncol) eqn:CPP.
